@@ -602,6 +602,28 @@ def install_etree(I):
     lx.etree = et
     I.modules['lxml'] = lx
     I.modules['lxml.etree'] = et
+    # itertools.count(): a counter whose state is a symbolic integer (the other names of the module stay the real ones)
+    import itertools as _it
+    itm = types.ModuleType('itertools')
+    itm.__dict__.update({k: v for k, v in _it.__dict__.items() if not k.startswith('__')})
+
+    def count(I_, args, kwargs, node):
+        if kwargs or len(args) > 1:
+            raise CheckerError('itertools.count with a step')
+        return SymCounter(I_.ex(args[0]) if args else z3.IntVal(0))
+    itm.count = _Method(count)
+    I.modules['itertools'] = itm
+
+
+class SymCounter:
+    """itertools.count(k): next() returns the current value and advances by one"""
+    def __init__(self, k):
+        self.k = k
+
+    def py_next(self, I, node):
+        k = self.k
+        self.k = k + 1
+        return Z(k)
 
 
 XREL = 'depccg/printer/xml.py'
@@ -616,7 +638,22 @@ class XmlRec(Contract):
         env.set(f.node.name, f)
         self._env = env
         self._queue = the_one(closure_names(I, f)[0], 'the token queue', self.name)
+        self._counter = self.queue_is_counter(I, self._queue)
         return env
+
+    @staticmethod
+    def queue_is_counter(I, name):
+        """the one closure variable of rec is either the queue list(enumerate(tree.tokens)) or a plain position counter (itertools.count(); the token is then
+        read from the leaf itself): decided by the expression _process_tree binds it to"""
+        import ast
+        from vc.sorts import parse_source
+        outer = [n for n in parse_source(XREL).body if isinstance(n, ast.FunctionDef) and n.name == '_process_tree']
+        for n in ast.walk(outer[0]) if outer else ():
+            if isinstance(n, ast.Assign) and any(isinstance(t, ast.Name) and t.id == name for t in n.targets) and isinstance(n.value, ast.Call):
+                f = n.value.func
+                if (f.attr if isinstance(f, ast.Attribute) else getattr(f, 'id', None)) == 'count':
+                    return True
+        return False
 
     @staticmethod
     def pre(k0, n, t):
@@ -628,11 +665,11 @@ class XmlRec(Contract):
         def build(I):
             t = z3.Const('node', T)
             k0, n = z3.Int('k0'), z3.Int('n_tokens')
-            q = SymTokenQueue(None, k0, n)
+            q = SymCounter(k0) if self._counter else SymTokenQueue(None, k0, n)
             parent = SymElem('parent')
             self._env.set(self._queue, q)
             self._pre = (t, k0, n, q, parent)
-            return [SymTree(t), parent], {}, [self.pre(k0, n, t)], None
+            return [SymTree(t), parent], {}, [k0 >= 0 if self._counter else self.pre(k0, n, t)], None
         yield Case('any-node', build)
 
     def post(self, I, case, args, result):
@@ -651,10 +688,13 @@ class XmlRec(Contract):
             raise CheckerError('rec(node, parent) called with unexpected arguments')
         t, parent = args[0].e, args[1]
         q = f.env.lookup(the_one(closure_names(I, f)[0], 'the token queue', self.name))
-        if not isinstance(q, SymTokenQueue):
-            raise CheckerError('rec called while `tokens` is not the token queue')
+        if not isinstance(q, (SymTokenQueue, SymCounter)):
+            raise CheckerError('rec called while its closure variable is neither the token queue nor a position counter')
         unfold_leaf_tag(I, getattr(self, '_pre', (None,))[0]) if I.target_contract is self and getattr(self, '_pre', None) else None
-        I.oblige('pre', self.pre(q.k, q.n, t), node, extra='precondition of rec: the remaining tokens start with the tokens of this subtree')
+        if isinstance(q, SymCounter):
+            I.oblige('pre', q.k >= 0, node, extra='precondition of rec: the position counter is not negative')
+        else:
+            I.oblige('pre', self.pre(q.k, q.n, t), node, extra='precondition of rec: the remaining tokens start with the tokens of this subtree')
         parent.kids.append(enc_xml(I)(t, q.k))
         q.k = q.k + nleaves(t)
         return None
